@@ -33,6 +33,7 @@ def run(ck, an, tier):
     from rules import C03 as _c03
     _c03.s2(_R(ck, "C03:"), an)      # the imbalance keeps every entry of target - holdings: a NaN size (missing quote) survives to the guards that reject it, nothing filters it on the way
     _c14.s4(_R(ck, "C14:"), an)      # the book's own price selectors: liq_price(q) is acq_price(-q), NaN for a blank side - never a remembered price
+    _c14.s1(_R(ck, "C14:"), an)      # a quote that arrives with a missing side blanks that side of the book (the book holds the last quote as given)
 
 
 def s1_s2(ck, an):
